@@ -33,13 +33,25 @@ class Model:
     def set(self, typ, val):
         if typ not in NAME or val is None:
             return 1
+        try:
+            val.encode("latin-1").decode("utf-8")
+        except UnicodeDecodeError:
+            # not valid UTF-8: refused.  What is in force afterwards is not spelled out; the earlier expectation must not turn into
+            # "anything goes": a token whose claim differs from the value configured before must still be rejected
+            self.tainted = getattr(self, "tainted", {})
+            self.tainted[typ] = self.expected.pop(typ, self.tainted.get(typ))
+            return 1
+        except UnicodeEncodeError:
+            pass
         self.expected[typ] = val
+        getattr(self, "tainted", {}).pop(typ, None)
         return 0
 
     def delete(self, typ):
         if typ not in NAME:
             return 1
         self.expected.pop(typ, None)
+        getattr(self, "tainted", {}).pop(typ, None)
         return 0
 
     def verdict(self, now, payload):
@@ -57,6 +69,13 @@ class Model:
                     return False, "expired"
                 if name == "nbf" and not (v <= now + lw):
                     return False, "not-yet-valid"
+        for typ, prev in getattr(self, "tainted", {}).items():
+            n = NAME[typ]
+            if prev is None:
+                return None, n + "-after-refused-set-without-earlier-value"
+            if type(payload.get(n)) is str and payload[n].encode("utf-8", "surrogatepass") == prev.encode("utf-8", "surrogatepass"):
+                return None, n + "-after-refused-set-equals-earlier-value"
+            return False, n + "-differs-from-value-configured-before-a-refused-set"
         for typ, exp in self.expected.items():
             n = NAME[typ]
             if n not in payload:
@@ -157,7 +176,9 @@ def judge(path):
             elif tag == "G":
                 cnt("claim_get_calls")
                 exp = m.expected.get(ev[2])
-                if ev[3] != exp:
+                if ev[2] in getattr(m, "tainted", {}):
+                    cnt("unjudged.claim_get-after-refused-set")
+                elif ev[3] != exp:
                     viol("claim_get-value", "jwt_checker_claim_get returned %r, model %r" % (ev[3], exp), hist, ev)
             elif tag == "V":
                 now, text, rc, ef = ev[2], ev[3], ev[4], ev[5]
@@ -200,7 +221,7 @@ def run(tier, seed, replay):
                 "unsigned. distinct = distinct (relation of exp/nbf to its boundary incl. on/off, type, string-claim relation, model verdict) tuples")
     rep.assumptions = ["clock = time() supplied by the harness (drivers/vh_clock.c)", "integers beyond int64 and payloads with an escaped NUL are "
                        "unjudged (jansson refuses them; only 'not accepted against the model' is asserted)",
-                       "expected strings are valid UTF-8 (a failed claim_set is outside the statement)"]
+                       "a claim_set refused for an expected value that is not valid UTF-8 leaves the policy unspecified except that a token differing from the value configured before it is still rejected"]
     rd = vf.run_dir("C04")
     b = vf.driver("d_c04", "asan", clock=True)
     n = 1000000 if tier == "thorough" else 20000
